@@ -25,6 +25,7 @@ RULE = ("case = (request class, removed required AVPs, application id, destinati
 ASSUMPTIONS = ["validate_received_request_avps stays on (off is outside the statement)",
                "peers unknown to the node never reach the ready state (3010 + close), so they cannot send requests"]
 TIMEOUT = {"quick": 900, "thorough": 3600}
+SCTP_CLONES = {"quick": ['sweep11'], "thorough": ['sweep14', 'sweep15']}
 
 R1, R2, RX = "verif.example", "other.example", "extra.example"
 CONFIGS = {
